@@ -26,7 +26,8 @@ BANNED_CALL = [
     (r'^<?std::net::', 'network'),
     (r'^<?std::os::', 'os'),
     (r'^<?(std|core)::sync::atomic::', 'atomic'),
-    (r'^<?std::sync::(Once|OnceLock|LazyLock|Mutex|RwLock|Condvar|mpsc)', 'sync global / lock'),
+    (r'^<?std::sync::(poison::)?(rwlock::|mutex::|once_lock::|lazy_lock::)?(Once|OnceLock|LazyLock|Mutex|RwLock|Condvar)(::|<)', 'sync global / lock'),
+    (r'^<?std::sync::mpsc::', 'sync global / lock'),
     (r'^<?(std|core)::cell::(OnceCell|LazyCell)', 'lazy cell'),
     (r'^<?(std|core)::(alloc|intrinsics)::.*(random|rdtsc)', 'random intrinsic'),
     (r'(^|::)(rand|fastrand|getrandom|rand_core|rand_chacha)::', 'rng crate'),
